@@ -350,18 +350,34 @@ Definition parse (c : content) : pj :=
   end.
 
 Inductive fkind := KCrashBefore | KCrashAfter | KErr.
-Inductive fsop := FOpen | FWrite (i : nat) | FClose | FRename | FRemove.
+(* every file-system call of frappy/persistent.py is an operation, a crash point and a fault point:
+   FMakedirs      os.makedirs(persistentdir, exist_ok=True)            (__init__)
+   FOpenR         open(self.persistentFile, 'r')                       (loadPersistentData)
+   FIsDir         persistentdir.is_dir()                               (__save_params, before the try block)
+   FOpen          open(tmpfile, 'w')       FWrite i   the i-th f.write of json.dump + the final newline
+   FClose         the end of the with block
+   FRename        os.rename(tmpfile, self.persistentFile)   - the ONLY operation that touches the stored file
+   FRemove        os.remove(tmpfile)                                   (finally clause)
+   FRemoveTarget  a removal of the stored file: executed by no sequence of the code as it is; it is in the
+                  universe so that the obligation "only the rename touches the stored file" can be stated and its
+                  violation exhibited (Counter.v), and as the image of such a call observed in the implementation
+   FOther         any other file-system call observed in the implementation (never produced by the model) *)
+Inductive fsop := FMakedirs | FOpenR | FIsDir | FOpen | FWrite (i : nat) | FClose | FRename | FRemove
+                | FRemoveTarget | FOther.
 Definition fault := option (fsop * fkind).
 
 Definition fsop_eqb (a b : fsop) : bool :=
   match a, b with
-  | FOpen, FOpen | FClose, FClose | FRename, FRename | FRemove, FRemove => true
+  | FMakedirs, FMakedirs | FOpenR, FOpenR | FIsDir, FIsDir
+  | FOpen, FOpen | FClose, FClose | FRename, FRename | FRemove, FRemove
+  | FRemoveTarget, FRemoveTarget | FOther, FOther => true
   | FWrite i, FWrite j => Nat.eqb i j
   | _, _ => false
   end.
 
-(* control state of one __save_params file sequence: running, an OSError is propagating, the process is dead *)
-Inductive ctl := CRun | CFail | CDead.
+(* control state of one __save_params file sequence: running, an OSError is propagating inside the try block (the
+   finally clause still runs), an OSError is propagating outside of it (nothing more runs), the process is dead *)
+Inductive ctl := CRun | CFail | CAbort | CDead.
 (* s_done: the rename took place (the statement after it, self.persistentData = data, is reached) *)
 Record sv := { s_disk : disk; s_ctl : ctl; s_open : bool; s_err : bool; s_done : bool }.
 
@@ -376,6 +392,7 @@ Definition set_done s v := {| s_disk := s_disk s; s_ctl := s_ctl s; s_open := s_
 Definition enabled (s : sv) (o : fsop) : bool :=
   match s_ctl s, o with
   | CDead, _ => false
+  | CAbort, _ => false
   | _, FClose => s_open s
   | CRun, _ => true
   | CFail, FRemove => true
@@ -388,7 +405,8 @@ Definition effect (data : amap) (n : nat) (d : disk) (o : fsop) : disk * bool :=
   | FOpen => ({| target := target d; tmp := Some (CW data 0 n) |}, true)
   | FWrite _ => ({| target := target d;
                     tmp := match tmp d with Some (CW dd k nn) => Some (CW dd (S k) nn) | x => x end |}, true)
-  | FClose => (d, true)
+  | FClose | FMakedirs | FOpenR | FIsDir | FOther => (d, true)
+  | FRemoveTarget => ({| target := None; tmp := tmp d |}, true)
   | FRename => match tmp d with
                | Some c => ({| target := Some c; tmp := None |}, true)
                | None => (d, false)
@@ -405,23 +423,56 @@ Definition apply_effect (data : amap) (n : nat) (s : sv) (o : fsop) : sv :=
 Definition fault_at (f : fault) (o : fsop) : option fkind :=
   match f with Some (o', k) => if fsop_eqb o o' then Some k else None | None => None end.
 
+(* where an OSError raised by the operation leaves the control: is_dir() is called before the try block *)
+Definition err_ctl (o : fsop) : ctl := match o with FIsDir => CAbort | _ => CFail end.
+
 Definition exec (f : fault) (data : amap) (n : nat) (s : sv) (o : fsop) : sv :=
   if negb (enabled s o) then s else
   let s := match o with FClose => set_open s false | _ => s end in
   match fault_at f o with
   | Some KCrashBefore => set_ctl s CDead
-  | Some KErr => set_err (set_ctl s CFail) true
+  | Some KErr => set_err (set_ctl s (err_ctl o)) true
   | Some KCrashAfter => set_ctl (apply_effect data n s o) CDead
   | None => apply_effect data n s o
   end.
 
 Definition save_ops (n : nat) : list fsop :=
-  FOpen :: map FWrite (seq 0 n) ++ [FClose; FRename; FRemove].
+  FIsDir :: FOpen :: map FWrite (seq 0 n) ++ [FClose; FRename; FRemove].
 
 Definition sv0 (d : disk) : sv := {| s_disk := d; s_ctl := CRun; s_open := false; s_err := false; s_done := false |}.
 
 Definition save_file (f : fault) (data : amap) (n : nat) (d : disk) : sv :=
   fold_left (exec f data n) (save_ops n) (sv0 d).
+
+(* the file-system calls one save really makes, in order (an operation that is reached is recorded, also when the
+   fault strikes at it) - compared with the calls recorded in the implementation *)
+Definition exec_log (f : fault) (data : amap) (n : nat) (acc : sv * list fsop) (o : fsop) : sv * list fsop :=
+  (exec f data n (fst acc) o, if enabled (fst acc) o then snd acc ++ [o] else snd acc).
+Definition save_log (f : fault) (data : amap) (n : nat) (d : disk) : list fsop :=
+  snd (fold_left (exec_log f data n) (save_ops n) (sv0 d, [])).
+
+(* the file system alone: the operations of a sequence one after the other, no control flow.  A crash at index k of
+   a sequence leaves fs_run of its first k operations *)
+Definition fs_step (data : amap) (n : nat) (d : disk) (o : fsop) : disk := fst (effect data n d o).
+Definition fs_run (data : amap) (n : nat) (ops : list fsop) (d : disk) : disk := fold_left (fs_step data n) ops d.
+
+(* a sufficient condition, decidable on the sequence alone, under which every prefix of a sequence of operations
+   leaves the previous or the complete new document as the stored file: the stored file is touched by renames only,
+   and a rename happens only when the temporary file is known to hold all n chunks of the new document.
+   t: what is known about the temporary file (None = nothing: it may be a stale one of an earlier crashed save) *)
+Fixpoint seq_safe (n : nat) (t : option nat) (ops : list fsop) : bool :=
+  match ops with
+  | [] => true
+  | o :: r =>
+      match o with
+      | FRemoveTarget | FOther => false
+      | FOpen => seq_safe n (Some 0) r
+      | FWrite _ => seq_safe n (option_map S t) r
+      | FRename => match t with Some k => Nat.eqb k n && seq_safe n None r | None => false end
+      | FRemove => seq_safe n None r
+      | FMakedirs | FOpenR | FIsDir | FClose => seq_safe n t r
+      end
+  end.
 
 Inductive sres := SOk | SErr | SCrash.
 Definition sres_of (s : sv) : sres :=
@@ -578,7 +629,24 @@ Inductive op :=
 Definition finish (d : disk) (m : mstate) (dead : bool) : st * res :=
   if dead then ({| dk := d; md := None |}, RCrash) else ({| dk := d; md := Some m |}, ROk).
 
+(* file-system calls that change nothing (os.makedirs of the existing directory, open for reading) before the
+   saves of an operation: the calls made (up to the one the fault strikes at) and the kind of the fault that struck *)
+Fixpoint pre_ops (f : fault) (ops : list fsop) : list fsop * option fkind :=
+  match ops with
+  | [] => ([], None)
+  | o :: r => match fault_at f o with
+              | Some k => ([o], Some k)
+              | None => let '(l, k) := pre_ops f r in (o :: l, k)
+              end
+  end.
+Definition init_pre : list fsop := [FMakedirs; FOpenR].
+Definition load_pre : list fsop := [FOpenR].
+
 Definition do_init (M : mdesc) (cfg : amap) (f : fault) (n : nat) (d : disk) : st * res :=
+  match snd (pre_ops f init_pre) with
+  | Some KErr => ({| dk := d; md := None |}, RIOErr)     (* an OSError other than FileNotFoundError propagates *)
+  | Some _ => ({| dk := d; md := None |}, RCrash)
+  | None =>
   match load_file M d with
   | LOk raw loaded =>
       let m := init_state M cfg raw loaded in
@@ -589,6 +657,7 @@ Definition do_init (M : mdesc) (cfg : amap) (f : fault) (n : nat) (d : disk) : s
       | SPWrote SCrash => ({| dk := d'; md := None |}, RCrash)
       | _ => ({| dk := d'; md := Some m' |}, ROk)
       end
+  end
   end.
 
 Definition do_save (M : mdesc) (f : fault) (n : nat) (d : disk) (m : mstate) : st * res :=
@@ -608,10 +677,15 @@ Definition load_step (M : mdesc) (m : mstate) (kv : nat * val) : mstate :=
   end.
 
 Definition do_load (M : mdesc) (f : fault) (n : nat) (d : disk) (m : mstate) : st * res :=
+  match snd (pre_ops f load_pre) with
+  | Some KErr => ({| dk := d; md := Some m |}, RIOErr)   (* raised by open: persistentData is not assigned *)
+  | Some _ => ({| dk := d; md := None |}, RCrash)
+  | None =>
   match load_file M d with
   | LOk raw loaded =>
       let m1 := fold_left (load_step M) loaded (set_pdata m (Some raw)) in
       let '(d', m', dead) := write_init M f n d m1 in finish d' m' dead
+  end
   end.
 
 Definition do_reset (M : mdesc) (f : fault) (n : nat) (d : disk) (m : mstate) : st * res :=
